@@ -1,6 +1,6 @@
 #!/usr/bin/env python3
 """Run checks against the seeded changes kept under /verif/seeded/<id>/ (and optionally /verif/mutants/*.diff).
-usage: tools/check_seeded.py [--only ID,ID] [--tier quick] [--mutants]
+usage: tools/check_seeded.py [--only ID,ID] [--tier quick] [--mutants] [--benign]
 Each patch is applied to a scratch copy of /repo under /tmp (removed afterwards); the check of the seed's property is run with
 VERIF_REPO pointing at the copy; meta.json gets the outcome."""
 import json
@@ -37,7 +37,7 @@ def one(item):
 
 
 def main():
-    only, tier, mut, par = None, "quick", False, 2
+    only, tier, mut, par, benign = None, "quick", False, 2, False
     a = sys.argv[1:]
     for i, x in enumerate(a):
         if x == "--only":
@@ -46,10 +46,30 @@ def main():
             tier = a[i + 1]
         if x == "--mutants":
             mut = True
+        if x == "--benign":
+            benign = True
         if x == "--par":
             par = int(a[i + 1])
     items = []
     sdir = os.path.join(VERIF, "seeded")
+    if benign:
+        # property-preserving changes: every check that was run on them must stay quiet (rc 0)
+        bdir = os.path.join(VERIF, "benign")
+        for name in sorted(os.listdir(bdir)):
+            if only and name not in only and name.split("-")[0] not in only:
+                continue
+            meta = json.load(open(os.path.join(bdir, name, "meta.json")))
+            items.append(("benign:" + name, os.path.join(bdir, name, "patch.diff"), sorted(meta.get("checks_run") or [meta["property"]]), tier))
+        with ThreadPoolExecutor(max_workers=par) as ex:
+            for name, res in ex.map(one, items):
+                alarms = [c for c, v in res.items() if isinstance(v, dict) and v.get("rc") != 0]
+                print(f"{name:24s} alarms={alarms}  " + "; ".join(f"{c}: rc={v.get('rc')}" for c, v in res.items() if isinstance(v, dict)))
+                mp = os.path.join(bdir, name.split(":")[1], "meta.json")
+                meta = json.load(open(mp))
+                meta["checks_run"] = res
+                meta["alarms"] = alarms
+                json.dump(meta, open(mp, "w"), indent=1)
+        return
     for name in sorted(os.listdir(sdir)):
         if only and name not in only and name.split("-")[0] not in only:
             continue
